@@ -21,7 +21,7 @@ theorem canTake_pres {s s' : State} (h : Pres s s') (v : Nat) : canTake s' v = c
     obtain ⟨hc, _, _, _⟩ := core_fields hk
     simp [hc]
 
-theorem toLoggers_ok {B} (hB : Tag B) (cfg : Cfg) (f : Frame) : ∀ (ls : List Nat) (s : State),
+theorem toLoggers_ok (cfg : Cfg) {B} (hB : Tag cfg B) (f : Frame) : ∀ (ls : List Nat) (s : State),
     Pres s (toLoggers cfg f ls s) ∧
     dataSends B (toLoggers cfg f ls s).out =
       dataSends B s.out ++ (if B f.body = true then (ls.filter (canTake s)).map (fun u => (u, f)) else [])
@@ -33,9 +33,9 @@ theorem toLoggers_ok {B} (hB : Tag B) (cfg : Cfg) (f : Frame) : ∀ (ls : List N
       unfold loggerOne
       cases hfind : s.find u with
       | none => simp [canTake, hfind]; exact Pres.refl s
-      | some m => exact trySend_ok hB cfg (fwdTop_ok hB cfg) s u f
+      | some m => exact trySend_ok cfg hB (fwdTop_ok cfg hB) s u f
     obtain ⟨hp, hd⟩ := hstep
-    have ih := toLoggers_ok hB cfg f rest (loggerOne cfg f s u)
+    have ih := toLoggers_ok cfg hB f rest (loggerOne cfg f s u)
     refine ⟨hp.trans ih.1, ?_⟩
     rw [ih.2, hd, List.filter_cons]
     have he : rest.filter (canTake (loggerOne cfg f s u)) = rest.filter (canTake s) := by
@@ -54,8 +54,8 @@ theorem ack_exactly_once (cfg : Cfg) (s : State) (u : Nat) (m : Module) (hm : s.
           (fun l => (l, ackFrame cfg m.modId))) := by
   unfold sendAck
   simp only [hm]
-  have h1 := trySend_ok tag_ack cfg (fwdTop_ok tag_ack cfg) s u (ackFrame cfg m.modId)
-  have h2 := toLoggers_ok tag_ack cfg (ackFrame cfg m.modId)
+  have h1 := trySend_ok cfg (tag_ack cfg) (fwdTop_ok cfg (tag_ack cfg)) s u (ackFrame cfg m.modId)
+  have h2 := toLoggers_ok cfg (tag_ack cfg) (ackFrame cfg m.modId)
     (cfg.order (trySend cfg (fwdTop cfg) s u (ackFrame cfg m.modId)).loggers)
     (trySend cfg (fwdTop cfg) s u (ackFrame cfg m.modId))
   rw [h2.2, h1.2]
@@ -76,28 +76,22 @@ theorem ack_shape (cfg : Cfg) (d : Int) :
     failure handling), so "one copy per logger module" is exact -/
 theorem ack_copies_only_to_loggers (cfg : Cfg) (s : State) (u : Nat) (f : Frame) (l : Nat)
     (h : l ∈ (trySend cfg (fwdTop cfg) s u f).loggers) : l ∈ s.loggers :=
-  (trySend_ok tag_ack cfg (fwdTop_ok tag_ack cfg) s u f).1.loggers l h
+  (trySend_ok cfg (tag_ack cfg) (fwdTop_ok cfg (tag_ack cfg)) s u f).1.loggers l h
 
 /-- **Data frames are never acknowledged**: forwarding anything — a client's data frame or a manager message —
 writes no ACKNOWLEDGE on any connection. -/
 theorem forward_never_acks (cfg : Cfg) (s : State) (g : Frame) (hg : g.body ≠ .ack) :
     dataSends isAck (fwdTop cfg s g).out = dataSends isAck s.out :=
-  (fwdTop_ok tag_ack cfg s g (by simpa [isAck] using hg)).2
+  (fwdTop_ok cfg (tag_ack cfg) s g (by simpa [isAck] using hg)).2
 
 /-- removing a module (DISCONNECT, broken frame, refused connect) writes no ACKNOWLEDGE -/
 theorem remove_never_acks (cfg : Cfg) (s : State) (u : Nat) :
-    dataSends isAck (removeModule cfg (fwdTop cfg) s u).out = dataSends isAck s.out := by
-  unfold removeModule
-  split
-  · simp
-  · rename_i m hm
-    dsimp only
-    rw [(fwdTop_ok tag_ack cfg _ _ (by simp [closedFrame, mgrFrame])).2]
-    split <;> simp [dataSends]
+    dataSends isAck (removeModule cfg (fwdTop cfg) s u).out = dataSends isAck s.out :=
+  removeModule_quiet cfg (tag_ack cfg) (fwdTop_ok cfg (tag_ack cfg)) s u
 
 theorem log_never_acks (cfg : Cfg) (lvl : Nat) (s : State) :
     dataSends isAck (logAt cfg (fwdTop cfg) lvl s).out = dataSends isAck s.out :=
-  (logAt_ok tag_ack cfg (fwdTop_ok tag_ack cfg) lvl s).2
+  (logAt_ok cfg (tag_ack cfg) (fwdTop_ok cfg (tag_ack cfg)) lvl s).2
 
 /-- the type ids that `process_message` tests before the four subscription requests differ from them
     (instantiated at the ids of the source tree in `Gen/Consts.lean`) -/
